@@ -464,6 +464,11 @@ func bisim(wa *World, a Node, wb *World, b Node, mode Mode, visited map[string]b
 		if ia && ib {
 			return nil
 		}
+		if ea != nil && eb != nil && !ia && !ib {
+			// both sides end in a reference that designates nothing (only reachable here through a
+			// reference that expansion keeps without following, e.g. `#`): both denote nothing
+			return nil
+		}
 		return &Mismatch{"deref", trail, fmt.Sprintf("input: %v; output: %v", ea, eb)}
 	}
 	key := da.ID() + "|" + db.ID() + "|" + strconv.Itoa(int(a.Kind))
@@ -566,6 +571,11 @@ func (w *World) Reachable(start Node, skipSchemas bool) *Reach {
 			if skipSchemas && h.Node.Kind == KSchema {
 				continue
 			}
+			if h.Ref == "#" || h.Ref == "" {
+				// the containing document as a whole: such a reference is a cycle by construction
+				// (the document contains the holder) and is kept as it stands, never followed
+				continue
+			}
 			r.Holders = append(r.Holders, h)
 			if u, _, err := Locate(h.Node.URL, h.Ref); err == nil {
 				r.Requested[u] = true
@@ -633,6 +643,9 @@ func (w *World) Unfolding(start Node, skipSchemas bool, limit int) int {
 				return
 			}
 			if skipSchemas && h.Node.Kind == KSchema {
+				continue
+			}
+			if h.Ref == "#" || h.Ref == "" {
 				continue
 			}
 			t, err := w.Resolve(h.Node.URL, h.Ref, h.Node.Kind)
